@@ -104,7 +104,8 @@ def status_of(raw: bytes):
 # ---- the run ------------------------------------------------------------------------------------------------------
 def run_flow(case):
     resp = case["dir"] == "resp"
-    chunks = [unhx(c) for c in case["chunks"]]
+    wire = case["op"] == "wire"
+    chunks = [] if wire else [unhx(c) for c in case["chunks"]]
     body = b"".join(chunks)
     framing = case["framing"]
     pol = policy_value(case["policy"])
@@ -140,7 +141,7 @@ def run_flow(case):
                 head_at[0] = i
 
         def frame_head():
-            if framing == "cl": return b"Content-Length: %d\r\n" % len(body)
+            if framing == "cl": return b"Content-Length: %d\r\n" % (case["cl"] if wire else len(body))
             if framing == "chunked": return b"Transfer-Encoding: chunked\r\n"
             return b""
         if resp:
@@ -161,6 +162,9 @@ def run_flow(case):
         deliveries += [("d", s) for s in rest]
         if framing == "chunked": deliveries.append(("d", b"0\r\n\r\n"))
         if framing == "eof": deliveries.append(("close", None))
+        if wire:
+            # raw wire bytes in an arbitrary segmentation (not aligned with chunks), optionally the peer's close
+            deliveries = [("d", head)] + [("d", unhx(x)) for x in case["segs"]] + ([("close", None)] if case["close"] else [])
         for i, (k, d) in enumerate(deliveries):
             if k == "d": w.recv(src, d)
             else: w.peer_close(src)
@@ -198,7 +202,47 @@ def run_flow(case):
             "samples": samples, "content_hex": None if content is None else hx(content),
             "crash": [e[0] + ": " + e[1] for e in w.errors],
             "n_deliveries": len(deliveries),
+            "proto_err": any("HTTP/1 protocol error" in e for e in seen["err"]),
+            "trailer": trailer_seen(lay, ctx, resp, w),
         }
+
+
+def trailer_seen(lay, ctx, resp, w):
+    """the chunked reader met a non-empty trailer section (mitmproxy: NotImplementedError once it is complete)"""
+    if any(e[0] == "NotImplementedError" for e in w.errors): return True
+    try:
+        conn = w.conns["server0"] if resp else ctx.client
+        h1 = lay.connections[conn]
+        while not hasattr(h1, "body_reader") and hasattr(h1, "child_layer"): h1 = h1.child_layer
+        rd = getattr(h1, "body_reader", None)
+        return bool(getattr(rd, "_reading_trailer", False)) and h1.state.__name__ == "read_body" and bytes(h1.buf) not in (b"", b"\r")
+    except Exception:
+        return False
+
+
+def wire_body(case):
+    """independent decode of a wire case: (body, index of the delivery that completes the message) or (None, None)"""
+    raw = b"".join(unhx(x) for x in case["segs"])
+    segl = [len(unhx(x)) for x in case["segs"]]
+
+    def delivery_of(nbytes):      # deliveries: 0 = head, i+1 = segment i
+        acc = 0
+        for i, n in enumerate(segl):
+            acc += n
+            if acc >= nbytes: return i + 1
+        return None
+    fr = case["framing"]
+    if fr == "cl":
+        n = case["cl"]
+        if len(raw) < n: return None, None
+        return raw[:n], (0 if n == 0 else delivery_of(n))
+    if fr == "eof":
+        if not case["close"]: return None, None
+        return raw, len(segl) + 1
+    # chunked, strict: HEXDIG+ CRLF data CRLF ... 0 CRLF CRLF, no extensions
+    chunks, ok, left = read_chunked(raw)
+    if not ok: return None, None
+    return b"".join(chunks), delivery_of(len(raw) - len(left))
 
 
 def chunkings(body: bytes, k: int):
@@ -322,6 +366,9 @@ class Check(PropertyCheck):
             if r < 0.08:
                 yield {"op": "size", "s_hex": hx(self._size_string(rng).encode("utf-8"))}
                 continue
+            if r < 0.45:
+                yield self._wire(rng)
+                continue
             d = rng.pick(["req", "resp"])
             fr = rng.pick(framings[d])
             big = rng.chance(0.08)
@@ -340,6 +387,52 @@ class Check(PropertyCheck):
                 ch = rng.split(body, rng.randint(1, 5)) if body else []
             if r > 0.97 and rng.chance(0.5): lim = self._size_string(rng)      # possibly rejected option value
             yield self._flow(d, fr, lim, thr, rng.randint(0, 1), rng.pick(POLICIES), ch, glue=rng.chance(0.25))
+
+    @staticmethod
+    def _wire(rng):
+        """a body on the wire, cut into segments that ignore the framing; mostly well-formed"""
+        d = rng.pick(["req", "resp"])
+        fr = rng.pick(["cl", "chunked", "chunked"] if d == "req" else ["cl", "chunked", "chunked", "eof"])
+        alpha = b"abcdefghijklmnopqrstuvwxyz0123456789;= "
+        n = rng.pick([0, 1, 2, 3, 5, 6, 7, 12, rng.randint(0, 40)])
+        body = bytes(rng.pick(alpha) for _ in range(n))
+        close, cl = False, None
+        if fr == "cl":
+            cl = len(body)
+            r = rng.random()
+            if r < 0.08: cl += rng.randint(1, 3); close = d == "resp" and rng.chance(0.5)     # body shorter than declared
+            elif r < 0.12 and cl: cl -= 1                                                        # trailing extra byte
+            raw = body
+        elif fr == "eof":
+            raw, close = body, rng.chance(0.9)
+        else:
+            parts = rng.split(body, rng.randint(1, 4)) if body else []
+            raw = b""
+            for pc in parts:
+                size = (b"%x" if rng.chance(0.7) else b"%X") % len(pc)
+                if rng.chance(0.1): size = b"0" * rng.randint(1, 3) + size
+                ext = rng.pick([b"", b"", b"", b";x=1", b" ", b"\t ", b";a\rb", b"; q"])
+                raw += size + ext + b"\r\n" + pc + b"\r\n"
+            raw += rng.pick([b"0", b"0", b"00", b"0;last"]) + b"\r\n\r\n"
+            r = rng.random()
+            if r < 0.2 and raw:      # one mutation
+                i = rng.randint(0, len(raw) - 1)
+                kind = rng.pick(["flip", "drop", "dup", "cut", "lf", "long"])
+                if kind == "flip": raw = raw[:i] + bytes([rng.pick(b"gG xz\r\n;0")]) + raw[i + 1:]
+                elif kind == "drop": raw = raw[:i] + raw[i + 1:]
+                elif kind == "dup": raw = raw[:i] + raw[i:i + 1] + raw[i:]
+                elif kind == "cut": raw = raw[:i]
+                elif kind == "lf": raw = raw.replace(b"\r\n", b"\n", 1)
+                else: raw = b"0" * 21 + raw
+            # a non-empty trailer section is not supported by mitmproxy (NotImplementedError): keep it out
+            if b"\r\n0" in raw or raw.startswith(b"0"):
+                t = raw.rfind(b"\r\n\r\n")
+                if t < 0 and not raw.endswith(b"\r"): pass
+            close = d == "resp" and rng.chance(0.1)
+        segs = rng.split(raw, rng.randint(1, 6)) if raw else []
+        lim = rng.pick([None, None, "6", "3", "12"]); thr = rng.pick([None, None, "3", "5", "2"])
+        return {"op": "wire", "dir": d, "framing": fr, "cl": cl, "segs": [hx(x) for x in segs], "close": bool(close),
+                "limit": lim, "thr": thr, "store": rng.randint(0, 1), "policy": rng.pick(POLICIES)}
 
     @staticmethod
     def _size_string(rng):
@@ -371,19 +464,32 @@ class Check(PropertyCheck):
     def oracle(self, case, obs):
         if case["op"] == "size" or obs.get("rejected"): return []
         fails = []
+        if obs.get("trailer"): return []     # HTTP/1 trailers are not implemented in mitmproxy: outside this property
         if obs["crash"]: fails.append("layer raised: " + obs["crash"][0])
-        chunks = [unhx(c) for c in case["chunks"]]
-        body = b"".join(chunks)
+        wire = case["op"] == "wire"
+        if wire:
+            # independent strict decode of the wire; a segmentation-independent statement is only demanded for
+            # complete well-formed messages, the body counts as one received chunk list [body]
+            body, done_at = wire_body(case)
+            chunks = [body] if body else []
+            segl = [len(unhx(x)) for x in case["segs"]]
+            dl = [0] + segl + ([0] if case["close"] else [])
+            if body is None: body, chunks = b"", []
+        else:
+            chunks = [unhx(c) for c in case["chunks"]]
+            body = b"".join(chunks)
+            done_at = None
         limit = human.parse_size(case["limit"])
         errored = any(LIMIT_MSG in e for e in obs["errors"])
         peer = b"".join(unhx(c) for c in obs["peer_chunks"])
         # per delivery: the length of the body chunk that delivery carried
-        dl = self._delivery_chunk_lens(case, chunks)
+        if not wire: dl = self._delivery_chunk_lens(case, chunks)
         if limit is not None:
             lim0 = max(limit, 0)
             # sentence 1: "known to exceed it — from Content-Length or from the bytes buffered so far — the flow ends
             # with an error, the client receives an error, the oversized body is not forwarded"
-            known_cl = case["framing"] == "cl" and len(body) > limit and len(body) > 0
+            declared = case["cl"] if wire else len(body)
+            known_cl = case["framing"] == "cl" and declared > limit and declared > 0
             # received so far per delivery; "known from the bytes buffered so far" = the buffer itself shows more than
             # the limit at a moment when that many body bytes have indeed been received
             got, recv_so_far = 0, []
@@ -399,12 +505,15 @@ class Check(PropertyCheck):
                     if s > lim0 + max(dl[: i + 1] or [0]):
                         fails.append(f"buffer-bound: holds {s} bytes after delivery {i} with limit {limit} and largest chunk {max(dl[: i + 1] or [0])}")
                         break
+        if wire and (done_at is None or case["policy"] in ("dup", "iter") or obs["proto_err"]):
+            return fails        # incomplete / malformed wire, or a callable whose result depends on the event boundaries
         if not errored and obs["relayed"]:
             # sentence 2: "When a body is streamed ..., it is relayed without buffering and the peer receives exactly the
             # received bytes after any stream transformation, in order; the flow keeps those bytes only if
             # store_streamed_bodies is enabled."
             # streamed = the relayed head was written to the peer before the end of the message had been received
-            streamed = obs["head_at"] is not None and obs["head_at"] < obs["n_deliveries"] - 1
+            last = done_at if wire else obs["n_deliveries"] - 1
+            streamed = obs["head_at"] is not None and obs["head_at"] < last
             if streamed:
                 # a callable set by the addon applies from the first byte on; otherwise the bytes pass unchanged
                 want = transform(case["policy"], chunks)
@@ -429,7 +538,7 @@ class Check(PropertyCheck):
 
     def known(self, case, obs, failure):
         # F-C07a: body_size_limit is not applied to what store_streamed_bodies accumulates while streaming
-        if case["op"] == "flow" and case["store"] and case["limit"] is not None and obs.get("relayed") \
+        if case["op"] in ("flow", "wire") and case["store"] and case["limit"] is not None and obs.get("relayed") \
                 and (failure.startswith("buffer-bound:") or failure.startswith("over-limit (buffered bytes)")):
             return "F-C07a"
         return None
@@ -438,11 +547,15 @@ class Check(PropertyCheck):
     def model_lines(self, case):
         if case["op"] == "size":
             return ["size " + case["s_hex"]]
+        opt = lambda v: "none" if v is None else hx(v.encode())
+        if case["op"] == "wire":
+            fr = f"cl:{case['cl']}" if case["framing"] == "cl" else case["framing"]
+            return [f"wire {case['dir']} {opt(case['limit'])} {opt(case['thr'])} {case['store']} {case['policy']} {fr} "
+                    + (",".join(case["segs"]) if case["segs"] else "-") + f" {int(case['close'])}"]
         chunks = case["chunks"]
         total = sum(len(unhx(c)) for c in chunks)
         fr = case["framing"]
         exp = f"cl:{total}" if fr == "cl" else fr
-        opt = lambda v: "none" if v is None else hx(v.encode())
         # the data events the h11 readers produce: one per non-empty chunk
         return [f"flow {case['dir']} {opt(case['limit'])} {opt(case['thr'])} {case['store']} {case['policy']} {exp} "
                 f"{1 if (fr == 'cl' and total == 0) else 0} " + (",".join(chunks) if chunks else "-")]
@@ -452,6 +565,11 @@ class Check(PropertyCheck):
         if case["op"] == "size" or r in ("rejected", "bad-op"): return r
         f = r.split(" ")
         err, relayed, samples, peer, content = f[0] == "1", f[1] == "1", [int(x) for x in f[2].split(",")], f[3], f[4]
+        if case["op"] == "wire":
+            # here the model itself groups the bytes into data events: one sample per delivery, and the reader's verdict
+            if f[5] == "2": return "unsupported-trailer"
+            return {"err": err, "relayed": relayed, "samples": samples, "peer": [] if peer == "-" else peer.split(","),
+                    "content": None if content == "none" else content, "proto_err": f[5] == "1"}
         # model samples are per event (headers, data..., eom); deliveries group them
         chunks = case["chunks"]
         n = len(chunks)
@@ -467,12 +585,18 @@ class Check(PropertyCheck):
         if case["op"] == "size":
             return "err" if obs["size"] == "err" else f"ok {obs['size']}"
         if obs.get("rejected"): return "rejected"
+        if obs.get("trailer"): return "unsupported-trailer"
         errored = any(LIMIT_MSG in e for e in obs["errors"])
-        return {"err": errored, "relayed": obs["relayed"], "samples": obs["samples"], "peer": obs["peer_chunks"],
-                "content": obs["content_hex"]}
+        v = {"err": errored, "relayed": obs["relayed"], "samples": obs["samples"], "peer": obs["peer_chunks"],
+             "content": obs["content_hex"]}
+        if case["op"] == "wire": v["proto_err"] = obs["proto_err"]
+        return v
 
     def classify(self, case, obs):
         if case["op"] == "size": return ("size", case["s_hex"]) if case["s_hex"] != "-" else None
+        if case["op"] == "wire":
+            return ("wire", case["dir"], case["framing"], case.get("cl"), case["limit"], case["thr"], case["store"], case["policy"],
+                    tuple(case["segs"]), case["close"])
         if not case["chunks"] and case["limit"] is None and case["thr"] is None: return None
         return ("flow", case["dir"], case["framing"], case["limit"], case["thr"], case["store"], case["policy"],
                 tuple(case["chunks"]), case["glue"])
@@ -480,6 +604,9 @@ class Check(PropertyCheck):
     def branches(self, case, obs):
         if case["op"] == "size": return ["size:" + ("err" if obs["size"] == "err" else "ok")]
         if obs.get("rejected"): return ["flow:option-rejected"]
+        if case["op"] == "wire":
+            return ["wire:" + case["framing"], "wire:" + ("protocol-error" if obs["proto_err"] else "ok"),
+                    "wire:segments=%d" % min(len(case["segs"]), 6), f"dir:{case['dir']}", f"policy:{case['policy']}"]
         out = [f"dir:{case['dir']}", f"framing:{case['framing']}", f"policy:{case['policy']}",
                f"opts:{'L' if case['limit'] else '-'}{'T' if case['thr'] else '-'}{'S' if case['store'] else '-'}"]
         errored = any(LIMIT_MSG in e for e in obs["errors"])
